@@ -22,22 +22,6 @@ impl ParseBuffer {
 #[verifier::external_body]
 pub fn parse2<T: Parse>(tokens: TokenStream) -> (r: syn::Result<T>) { unimplemented!() }
 
-/// C02: "`>>>` after a non-wrapper operator or combined with `<<<`" is rejected, so every action the parser
-/// produces satisfies: Wrap only on the ten wrapper-capable operators; Unwrap exactly on `<<<`
-pub open spec fn group_wf(g: ActionGroup) -> bool {
-    &&& (g.move_type == MoveType::Wrap ==> doc_wrapper_meaning(meaning_of_ctor(parse_table(g.combinator).1)) && g.combinator != Combinator::UNWRAP)
-    &&& ((g.move_type == MoveType::Unwrap) <==> (g.combinator == Combinator::UNWRAP))
-}
-
-/// a Wrap action built by `to_wrapper_action_expr` is a frame the generator's stack accepts
-pub proof fn lemma_wrapper_frame(g: ActionGroup, e: ExprGroup<ActionExpr>)
-    requires
-        group_wf(g), g.move_type == MoveType::Wrap,
-        e.expr.ctor_of() == parse_table(g.combinator).1, e.expr.operands().len() == 1,
-    ensures e.expr.operands().len() == 1 && !must_not_hoist(e.expr.ctor_of()) && !(e.expr is Initial),
-{
-}
-
 pub open spec fn mk_group(c: Combinator, deferred: bool, wrap: bool) -> ActionGroup {
     ActionGroup {
         combinator: c,
